@@ -94,7 +94,7 @@ def main(argv=None):
     functions = {}
     inlined, assumed = set(), set()
     bounded_units = []
-    rep_dir = os.path.join(ROOT, "replays", prop)
+    rep_dir = os.path.join(os.environ.get("VERIF_EVIDENCE_DIR") or ROOT, "replays", prop)
     for r in results:
         functions.update(r.get("functions", {}))
         inlined.update(r.get("inlined", []))
@@ -248,8 +248,9 @@ def main(argv=None):
         cov["census"] = {k: v for k, v in extra_res.items() if k != "failures"}
     ev = {"property_id": prop, "tier": tier, "seed": seed, "level": level, "coverage": cov,
           "assumptions": trusted, "wall_s": wall, "violations": len(violations)}
-    os.makedirs(os.path.join(ROOT, "evidence"), exist_ok=True)
-    json.dump(ev, open(os.path.join(ROOT, "evidence", f"{prop}.json"), "w"), indent=1, default=str)
+    ev_dir = os.environ.get("VERIF_EVIDENCE_DIR") or os.path.join(ROOT, "evidence")      # (override: scratch runs of tools/seed_try_copy.sh)
+    os.makedirs(ev_dir, exist_ok=True)
+    json.dump(ev, open(os.path.join(ev_dir, f"{prop}.json"), "w"), indent=1, default=str)
 
     # ---- report
     for k, what in known_hits:
